@@ -192,6 +192,8 @@ pub struct Observations {
     /// Cache contents at each upstream-query trace point (parallel to `trace`).
     pub trace_cache: Vec<Vec<CachedRec>>,
     pub address_lookups: Vec<simseam::world::AddressLookup>,
+    /// Datagrams as the code under test received them (after corruption).
+    pub recv_log: Vec<(String, Vec<u8>)>,
 }
 
 pub fn snapshot_cache(cache: &SharedCache) -> Vec<CachedRec> {
@@ -365,6 +367,7 @@ pub fn run(plan: &ResolvePlan, exec: &Exec, want_log: bool) -> Observations {
             zones: Zones::new(),
             trace_cache: trace_cache.take(),
             address_lookups: w.address_lookups.clone(),
+            recv_log: w.net.recv_log.clone(),
         }
     });
     drop(rt);
